@@ -18,6 +18,9 @@ def run(chk, replay):
     if replay and "agent_case" in json.load(open(replay)).get("case", {}):
         import p_c08
         p_c08.agent_level(chk, PROP, 0, only=json.load(open(replay))["case"]["agent_case"]); return
+    if replay and "hist_case" in json.load(open(replay)).get("case", {}):
+        import hist as _hist
+        _hist.replay_big_record(chk, PROP, "the outcome a run is REPORTED with is read back from the history store", json.load(open(replay))["case"]["hist_case"]); return
     chk.trusted = common.TRUSTED_COMMON + ["quiescence discipline of the scheduler harness (one completion released at a time)"]
     chk.assumptions = [sched.NOTES.get(PROP, "")]
     # the handlers run on the context the agent hands to Schedule: Agent.Run / Agent.signal are part of what C04 rests on
@@ -30,3 +33,5 @@ def run(chk, replay):
         p_c05.real_stop_stream(chk, PROP)
         import p_c08
         p_c08.agent_level(chk, PROP, 40 if chk.tier == "quick" else 400)
+        import hist as _hist
+        _hist.big_record_leg(chk, PROP, "the outcome a run is REPORTED with is read back from the history store (compaction at the end of the run included)")
